@@ -89,6 +89,36 @@ class ModuleInfo(object):
         self.skipped = []      # (lineno, reason) of config-resolved-away branches
 
 
+class _Normalise(ast.NodeTransformer):
+    """canonical surface form, applied to every module after configuration resolution, so that
+    the rules do not depend on incidental choices of the source:
+      N1  <constant> op x        ->  x flipped-op <constant>        (single comparisons)
+      N2  if not c: A else: B    ->  if c: B else: A                 (else present, not an elif)
+      N3  not not c -> c   (`not a == b` is NOT rewritten to `a != b`: user-defined __ne__ may differ)
+    Line numbers of the statements are kept."""
+    FLIP = {ast.Eq: ast.Eq, ast.NotEq: ast.NotEq, ast.Lt: ast.Gt, ast.Gt: ast.Lt, ast.LtE: ast.GtE, ast.GtE: ast.LtE}
+
+    def visit_Compare(self, n):
+        self.generic_visit(n)
+        if len(n.ops) == 1 and type(n.ops[0]) in self.FLIP and isinstance(n.left, ast.Constant) and not isinstance(n.comparators[0], ast.Constant):
+            return ast.copy_location(ast.Compare(n.comparators[0], [self.FLIP[type(n.ops[0])]()], [n.left]), n)
+        return n
+
+    def visit_UnaryOp(self, n):
+        self.generic_visit(n)
+        if isinstance(n.op, ast.Not):
+            o = n.operand
+            if isinstance(o, ast.UnaryOp) and isinstance(o.op, ast.Not) and isinstance(o.operand, (ast.Compare, ast.BoolOp, ast.UnaryOp)):
+                return o.operand
+        return n
+
+    def visit_If(self, n):
+        self.generic_visit(n)
+        if n.orelse and isinstance(n.test, ast.UnaryOp) and isinstance(n.test.op, ast.Not) and not (len(n.orelse) == 1 and isinstance(n.orelse[0], ast.If)):
+            return ast.copy_location(ast.If(n.test.operand, n.orelse, n.body), n)
+        return n
+
+
 class _ConfigResolver(ast.NodeTransformer):
     """Evaluates build-configuration tests (sys.version_info comparisons, PY2, GMPY,
     GMPY2, optional imports) and keeps only the live branch.  Applied to module level,
@@ -126,6 +156,11 @@ class _ConfigResolver(ast.NodeTransformer):
             return None
         if isinstance(node, ast.Compare) and len(node.ops) == 1:
             l, r = node.left, node.comparators[0]
+            if isinstance(l, ast.Tuple) and isinstance(r, ast.Attribute):
+                # (3, 8) <= sys.version_info  ==  sys.version_info >= (3, 8)
+                flip = {ast.Lt: ast.Gt, ast.Gt: ast.Lt, ast.LtE: ast.GtE, ast.GtE: ast.LtE}.get(type(node.ops[0]))
+                if flip is not None:
+                    return self.ev(ast.Compare(r, [flip()], [l]))
             if (isinstance(l, ast.Attribute) and l.attr == "version_info" and isinstance(l.value, ast.Name)
                     and l.value.id == "sys" and isinstance(r, ast.Tuple)):
                 try:
@@ -234,6 +269,7 @@ class Program(object):
                 elif r is not None:
                     new_body.append(r)
             tree.body = new_body
+            tree = _Normalise().visit(tree)
             for n in ast.walk(tree):
                 if hasattr(n, "body") and isinstance(n.body, list) and not n.body:
                     n.body.append(ast.Pass(lineno=getattr(n, "lineno", 0), col_offset=0))
@@ -363,5 +399,34 @@ def norm_text(node):
     """normalised source text of a node (for finding keys that survive reformatting)"""
     try:
         return ast.unparse(node)
+    except Exception:
+        return "<%s>" % type(node).__name__
+
+
+class _Canon(ast.NodeTransformer):
+    def __init__(self, keep):
+        self.keep = keep
+
+    def visit_Name(self, n):
+        if n.id in self.keep:
+            return n
+        return ast.copy_location(ast.Name("_", n.ctx), n)
+
+
+def canon_text(fnode, node):
+    """normalised text of `node` with the local variables of the enclosing function `fnode`
+    replaced by `_` (parameters, globals and attribute names are kept): finding keys built from
+    it survive a renaming of locals"""
+    import copy
+    a = fnode.args
+    params = {x.arg for x in a.posonlyargs + a.args + a.kwonlyargs}
+    local = set()
+    for n in ast.walk(fnode):
+        if isinstance(n, ast.Name) and isinstance(n.ctx, (ast.Store, ast.Del)):
+            local.add(n.id)
+    local -= params
+    keep = {n.id for n in ast.walk(node) if isinstance(n, ast.Name)} - local
+    try:
+        return ast.unparse(_Canon(keep).visit(copy.deepcopy(node)))
     except Exception:
         return "<%s>" % type(node).__name__
